@@ -59,7 +59,7 @@ def make_items(ctx, only=None):
         it['model'] = K.model(wl, ps)
         # the per-binary report of every changed pair, as abidiff prints it (abipkgdiff indents it by two blanks)
         it['model']['reports'] = sorted((os.path.basename(f['path']), pair_report(ctx, f['v1'], f['v2'], wl['options'])) for f in wl['files']
-                                        if f['v1'] and f['v2'] and os.path.basename(f['path']) in it['model']['sections']
+                                        if f['v1'] and f['v2'] and not ('--dso-only' in wl['options'] and K.fam_of(f['path']) in K.EXES) and os.path.basename(f['path']) in it['model']['sections']
                                         and not ('--fail-no-dbg' in wl['options'] and (f['v1'].endswith('_nodbg') or f['v2'].endswith('_nodbg')))
                                         and ps(f['v1'], f['v2'], wl['options']) & 4)
         items[name] = it
